@@ -126,7 +126,7 @@ def evaluate(ctx, sc):
                     qt[side] += len(e["i"][1]) - len(e["o"][1])
                 elif e["c"] == "PolyATrimmer":
                     pa[side] += len(e["i"][1]) - len(e["o"][1])
-        if "-q" in sc.mods:
+        if "-q" in sc.mods or "--nextseq-trim" in sc.mods:
             if nz(bp["quality_trimmed_read1"]) != qt[0] or nz(bp["quality_trimmed_read2"]) != qt[1] or nz(bp["quality_trimmed"]) != qt[0] + qt[1]:
                 viol("quality-trimmed-sum", f"quality_trimmed={bp['quality_trimmed']}/{bp['quality_trimmed_read1']}/{bp['quality_trimmed_read2']}, per-read sums {qt}")
         if "--poly-a" in sc.mods:
